@@ -1113,7 +1113,13 @@ func TestVerif_C19(t *testing.T) {
 	defer func() { http.DefaultTransport = oldTransport }()
 
 	header := "From MC Require Import Check.C19_check.\nOpen Scope string_scope.\n"
-	w, err := vh.NewCaseWriter(env.OutDir, "C19", header, 400)
+	// VERIF_PROP=C17h: the same cases serve property C17's clause on parallel hook calls (the
+	// interleaved calls of one hook give each call what it gets alone); same check function
+	prop := "C19"
+	if os.Getenv("VERIF_PROP") == "C17h" {
+		prop = "C17h"
+	}
+	w, err := vh.NewCaseWriter(env.OutDir, prop, header, 400)
 	if err != nil {
 		t.Fatal(err)
 	}
